@@ -3,13 +3,16 @@
     the code at /repo HEAD) takes the external functions as arguments:
       [hid text denom] = TokenPair.GetID (sha256 of "text|denom"), [canon a] = Address.Hex (EIP-55),
     and the theorems carry their assumed behaviour as explicit premises ([Oracles]). *)
-From Teleport Require Import Base.Bytes Base.Outcome Base.AList Model.Registry Model.RegistryCheck
-  Proofs.RegistryMap Proofs.Registry Proofs.RegistryInst.
+From Teleport Require Import Base.Bytes Base.Outcome Base.AList Model.Registry Model.RegistryExport Model.RegistryCheck
+  Proofs.RegistryMap Proofs.Registry Proofs.RegistryInst Proofs.RegistryHistory Proofs.RegistrySorted
+  Gen.RegistryGen Proofs.RegistrySource Proofs.RegistryMonitor.
 
-(** GetID is collision-free and never empty; the check-summed text of a 20-byte address is a hex address
-    that parses back to it. *)
+(** GetID is collision-free ON HEX-ADDRESS TEXTS (all the registry ever hashes: sha256 of text|denom collides for
+    arbitrary strings, e.g. ("a|b","c") and ("a","b|c"), so nothing stronger may be assumed - see
+    [C12_real_getid_meets_oracles] for what the real function needs) and never empty; the check-summed text of a 20-byte
+    address is a hex address that parses back to it. *)
 Definition Oracles (hid : bytes -> bytes -> bytes) (canon : bytes -> bytes) : Prop :=
-  (forall t d t' d', hid t d = hid t' d' -> t = t' /\ d = d') /\
+  (forall t d t' d', is_hex_address t = true -> is_hex_address t' = true -> hid t d = hid t' d' -> t = t' /\ d = d') /\
   (forall t d, hid t d <> []) /\
   (forall a, is_hex_address (canon a) = true) /\
   (forall a, length a = 20%nat -> addr_of (canon a) = a).
@@ -89,9 +92,109 @@ Theorem C12_convert_back_possible : forall hid canon evm_denom, Oracles hid cano
 Proof. intros hid canon e (A & B0 & C & D). exact (convert_back_possible_head hid canon e A B0 C D). Qed.
 Print Assumptions C12_convert_back_possible.
 
+(** The same over a whole HISTORY (the "consequently" clause of the property at full strength): a denomination that
+    converts before any admissible sequence of operations still converts after it - as a coin into the token
+    (ConvertCoin: denomination twice) AND back (ConvertERC20: the pair's contract text and the denomination) - through
+    a pair that kept every denomination, its owner and its enabled flag, unless at some point of the history an
+    operation explicitly toggled / cleaned up the very pair the denomination converted through at that moment, or
+    disabled the module ([hit]: the prefix, the operation and that pair are exhibited). *)
+Theorem C12_convert_back_over_history : forall hid canon evm_denom, Oracles hid canon ->
+  forall os s d p,
+  Good hid s -> admissible_run hid canon evm_denom head s os -> minting_enabled head s d d = Ok p ->
+  hit hid canon evm_denom s os d \/
+  exists p', minting_enabled head (run hid canon evm_denom head s os) d d = Ok p' /\
+             minting_enabled head (run hid canon evm_denom head s os) (p_text p') d = Ok p' /\ evolved p p'.
+Proof. intros hid canon e (A & B0 & C & D). exact (convert_back_run hid canon e A B0 C D). Qed.
+Print Assumptions C12_convert_back_over_history.
+
+(** What "kept" means: an [evolved] pair lists the old denominations in the same order (new ones only appended), so its
+    first denomination - and with it the id under a given contract text - never changes. *)
+Theorem C12_first_denomination_is_stable : forall hid p p' id, evolved p p' -> pair_id hid p = Ok id ->
+  exists d0 r r', p_denoms p = d0 :: r /\ p_denoms p' = d0 :: r' /\ pair_id hid p' = Ok (hid (p_text p') d0).
+Proof. exact evolved_first_denom. Qed.
+Print Assumptions C12_first_denomination_is_stable.
+
+(** The contract may be written in any spelling (check-summed, lower / upper case, with or without 0x): resolution goes
+    through the 20-byte address. *)
+Theorem C12_resolution_ignores_spelling : forall s t t',
+  is_hex_address t = true -> is_hex_address t' = true -> addr_of t = addr_of t' ->
+  get_token_pair_id s t = get_token_pair_id s t' /\
+  forall d, minting_enabled head s t d = minting_enabled head s t' d.
+Proof.
+  intros s t t' H H' E. unfold minting_enabled, get_token_pair_id. rewrite H, H', E. split; [reflexivity | intro d; reflexivity].
+Qed.
+Print Assumptions C12_resolution_ignores_spelling.
+
+(** "And nothing else changes", part 1: an operation that is refused by ValidateBasic, returns an error or panics
+    (and every conversion proper / environment step: class 9) leaves the WHOLE state as it was - for every code
+    variant; a genesis file only brings its bank metadata. *)
+Theorem C12_failed_operation_changes_nothing : forall hid canon evm_denom v s o,
+  snd (step hid canon evm_denom v s o) <> 0%nat ->
+  (is_genesis o = false -> fst (step hid canon evm_denom v s o) = s) /\
+  st_pairs (fst (step hid canon evm_denom v s o)) = st_pairs s /\ st_erc20 (fst (step hid canon evm_denom v s o)) = st_erc20 s /\
+  st_denom (fst (step hid canon evm_denom v s o)) = st_denom s /\ st_enable (fst (step hid canon evm_denom v s o)) = st_enable s.
+Proof. exact failed_step_changes_nothing. Qed.
+Print Assumptions C12_failed_operation_changes_nothing.
+
+(** Part 2: every operation leaves every pair it does not work on EXACTLY as it was - same record under the same
+    id, still reachable by its address and by each of its denominations.  [target]: AddCoin / Update name the pair by
+    its contract, Toggle by a token, a conversion cleans up the pair it resolved ([explicit]); RegisterCoin and
+    RegisterERC20 touch no existing pair at all. *)
+Theorem C12_other_pairs_untouched : forall hid canon evm_denom, Oracles hid canon ->
+  forall s o id p,
+  Good hid s -> admissible head s o -> aget id (st_pairs s) = Some p ->
+  target hid s o id \/
+  (aget id (st_pairs (fst (step hid canon evm_denom head s o))) = Some p /\
+   aget (addr_of (p_text p)) (st_erc20 (fst (step hid canon evm_denom head s o))) = Some id /\
+   forall d, In d (p_denoms p) -> aget d (st_denom (fst (step hid canon evm_denom head s o))) = Some id).
+Proof. intros hid canon e (A & B0 & C & D). exact (step_untouched_indexes hid canon e A C D). Qed.
+Print Assumptions C12_other_pairs_untouched.
+
+(** Well-formedness of the raw stores over every history: besides [Good], the three prefixes stay STRICTLY SORTED by
+    key (raw iteration shows every binding exactly once: no shadowed entries behind the API's back) and every
+    registered denomination is a valid bank denomination. *)
+Theorem C12_wellformed_over_history : forall hid canon evm_denom, Oracles hid canon ->
+  forall os, admissible_run hid canon evm_denom head empty_state os ->
+  let s := run hid canon evm_denom head empty_state os in
+  Good hid s /\ (Srt (st_pairs s) /\ Srt (st_erc20 s) /\ Srt (st_denom s)) /\ ValidDenoms s.
+Proof.
+  intros hid canon e (A & B0 & C & D) os Ad.
+  exact (wf_run hid canon e A C D os empty_state (wf_empty hid) Ad).
+Qed.
+Print Assumptions C12_wellformed_over_history.
+
+(** Consequently the genesis that ExportGenesis (GetAllTokenPairs = raw iteration of prefix 0x01) produces after ANY
+    history passes GenesisState.Validate, and InitGenesis of it into an empty registry yields a good registry: the
+    chain can always restart from its own export.  (That the re-import reproduces the store byte for byte is C13.) *)
+Theorem C12_export_validates : forall hid canon evm_denom, Oracles hid canon ->
+  forall os, admissible_run hid canon evm_denom head empty_state os ->
+  let s := run hid canon evm_denom head empty_state os in
+  validate_genesis head [] [] (get_all_token_pairs s) = Ok tt /\
+  exists s', init_genesis hid empty_state (get_all_token_pairs s) = Ok s' /\ Good hid s'.
+Proof.
+  intros hid canon e (A & B0 & C & D) os Ad. cbv zeta.
+  pose proof (wf_run hid canon e A C D os empty_state (wf_empty hid) Ad) as W. split.
+  - pose proof (export_validates_wf hid _ W) as E. unfold export_validates in E.
+    destruct (validate_genesis head [] [] (get_all_token_pairs (run hid canon e head empty_state os))) as [[]| |]; [reflexivity | discriminate | discriminate].
+  - exact (export_reimports hid A _ W).
+Qed.
+Print Assumptions C12_export_validates.
+
+(** The executable forms evaluated on the implementation's dumps imply the Prop forms. *)
+Theorem C12_wellformed_monitors_sound : forall s,
+  (sorted_state_b s = true -> Srt (st_pairs s) /\ Srt (st_erc20 s) /\ Srt (st_denom s)) /\
+  (valid_denoms_b s = true -> ValidDenoms s).
+Proof.
+  intro s. split; [|apply valid_denoms_b_spec].
+  unfold sorted_state_b. rewrite !andb_true_iff. intros [[[H1 H2] H3] _].
+  split; [apply sorted_b_Srt, H1 | split; [apply sorted_b_Srt, H2 | apply sorted_b_Srt, H3]].
+Qed.
+Print Assumptions C12_wellformed_monitors_sound.
+
 (** A genesis accepted by [GenesisState.Validate] is imported (InitGenesis does not panic) into a good
     registry. *)
-Theorem C12_genesis_consistent : forall hid, (forall t d t' d', hid t d = hid t' d' -> t = t' /\ d = d') ->
+Theorem C12_genesis_consistent : forall hid,
+  (forall t d t' d', is_hex_address t = true -> is_hex_address t' = true -> hid t d = hid t' d' -> t = t' /\ d = d') ->
   forall ps, validate_genesis head [] [] ps = Ok tt ->
   exists s', init_genesis hid empty_state ps = Ok s' /\ Good hid s'.
 Proof. exact genesis_consistent. Qed.
@@ -119,6 +222,46 @@ Theorem C12_monitor_accepts_model : forall hid canon evm_denom, Oracles hid cano
 Proof. intros hid canon e (A & B0 & C & D). exact (monitor_accepts_model hid canon e A C D). Qed.
 Print Assumptions C12_monitor_accepts_model.
 
+(** ... and so do the OBSERVATION-level monitors (23 resolvable through GetTokenPairID, 24 / 25 MintingEnabled sound and
+    complete): on the answers the model itself gives for a universe of token strings that contains the text and the
+    denominations of every stored pair, they accept every state of every admissible history.  A monitor failure on an
+    implementation trace is therefore never an artefact of the monitor. *)
+Theorem C12_observation_monitors_accept_model : forall hid canon evm_denom, Oracles hid canon ->
+  forall os, admissible_run hid canon evm_denom head empty_state os ->
+  let s := run hid canon evm_denom head empty_state os in
+  forall o cl toks, covers s toks ->
+  consistent_b hid s = true /\ nohex_b s = true /\
+  resolvable_b (model_ostep hid o cl s toks) = true /\ me_sound_b (model_ostep hid o cl s toks) = true /\
+  me_complete_b (model_ostep hid o cl s toks) = true.
+Proof.
+  intros hid canon e (A & B0 & C & D) os Ad. cbv zeta. intros o cl toks Cv.
+  destruct (wf_run hid canon e A C D os empty_state (wf_empty hid) Ad) as (G & S & V).
+  exact (step_monitors_accept_model hid B0 o cl _ toks G S V Cv).
+Qed.
+Print Assumptions C12_observation_monitors_accept_model.
+
+(** Monitor 26 (convert back across one step, evaluated on two consecutive observations) likewise accepts the model:
+    for every reachable state and every admissible next operation, on the model's own answers before and after. *)
+Theorem C12_convert_back_monitor_accepts_model : forall hid canon evm_denom, Oracles hid canon ->
+  forall os, admissible_run hid canon evm_denom head empty_state os ->
+  let s := run hid canon evm_denom head empty_state os in
+  forall o, admissible head s o ->
+  forall o0 cl0 toks toks', covers (fst (step hid canon evm_denom head s o)) toks' ->
+  convert_back_b (model_ostep hid o0 cl0 s toks)
+                 (model_ostep hid o (snd (step hid canon evm_denom head s o)) (fst (step hid canon evm_denom head s o)) toks') = true.
+Proof.
+  intros hid canon e (A & B0 & C & D) os Ad. cbv zeta. intros o Ao o0 cl0 toks toks' Cv.
+  destruct (wf_run hid canon e A C D os empty_state (wf_empty hid) Ad) as (G & S & V).
+  exact (convert_back_model hid B0 canon e A C D o0 cl0 _ toks o toks' G S Ao Cv).
+Qed.
+Print Assumptions C12_convert_back_monitor_accepts_model.
+
+(** The environment hypotheses are decidable, and every run checks them on every executed operation (mismatch kind 14)
+    - so no executed case lies outside the domain of the theorems unnoticed. *)
+Theorem C12_admissible_decided : forall s o, admissible_b s o = true <-> admissible head s o.
+Proof. exact admissible_b_spec. Qed.
+Print Assumptions C12_admissible_decided.
+
 (** The 40-hex-digit corner (O5): such a string IS a valid bank denomination and passes the proposal's
     ValidateBasic, and GetTokenPairID treats it as an address — which is why the code has to refuse it. *)
 Theorem C12_hex_looking_denom_is_valid :
@@ -129,9 +272,43 @@ Theorem C12_hex_looking_denom_is_valid :
 Proof. vm_compute. repeat split; reflexivity. Qed.
 Print Assumptions C12_hex_looking_denom_is_valid.
 
+(** The tie to the source, re-checked on every run on terms REGENERATED from the Go code (tools/gotocoq/registry ->
+    Gen/RegistryGen.v): the string GetID hashes is  text ++ separator ++ Denoms[0]  with a separator no hex address
+    contains; CreateDenom / CreateDenomDescription are the model's [create_denom] / [create_descr]; the Owner constants
+    are the model's; every function of the repository that calls a registry write method is one the model has (a new
+    writer makes this fail: the model would be incomplete), and only the six primitives write the three prefixes, each
+    the prefix the model's map of that name stands for. *)
+Theorem C12_source_tie :
+  getid_shape_ok getid_parts = true /\
+  (forall text, sprintf_source create_denom_fmt create_denom_args text = Some (create_denom text)) /\
+  (forall text, sprintf_source create_descr_fmt create_descr_args text = Some (create_descr text)) /\
+  lookup_name (B "OWNER_MODULE") owner_values = Some OWNER_MODULE /\
+  lookup_name (B "OWNER_EXTERNAL") owner_values = Some OWNER_EXTERNAL /\
+  writers_ok registry_writers = true /\ raw_ok registry_raw_access = true.
+Proof.
+  split; [exact getid_source_shape|]. split; [exact create_denom_source|]. split; [exact create_descr_source|].
+  split; [exact (proj1 owner_source)|]. split; [exact (proj2 owner_source)|]. exact writers_source.
+Qed.
+Print Assumptions C12_source_tie.
+
+(** Hence the oracle hypotheses about [hid] are met by the REAL GetID (the regenerated concatenation under ANY hash
+    that is collision-free with 32-byte digests - sha256, idealised): they are assumptions about sha256 only. *)
+Theorem C12_real_getid_meets_oracles : forall H : bytes -> bytes,
+  (forall x y, H x = H y -> x = y) -> (forall x, length (H x) = 32%nat) ->
+  let hid := hid_of_source H getid_parts in
+  (forall t d t' d', is_hex_address t = true -> is_hex_address t' = true -> hid t d = hid t' d' -> t = t' /\ d = d') /\
+  (forall t d, hid t d <> []) /\
+  (forall t d, hid t d = H (t ++ B "|" ++ d)).
+Proof.
+  intros H Hi Hl. cbv zeta.
+  destruct (source_getid_meets_oracles H Hi Hl getid_parts getid_source_shape) as [A B0].
+  split; [exact A|]. split; [exact B0|]. intros t d. unfold hid_of_source. rewrite getid_source_is_text_bar_denom, app_nil_r. reflexivity.
+Qed.
+Print Assumptions C12_real_getid_meets_oracles.
+
 (** Non-vacuity: the oracle hypotheses are satisfiable ... *)
 Example C12_oracles_satisfiable : Oracles hid0 canon0.
-Proof. split; [exact hid0_inj | split; [exact hid0_nonempty | split; [exact canon0_hex | exact canon0_addr]]]. Qed.
+Proof. split; [intros t d t' d' _ _; exact (hid0_inj t d t' d') | split; [exact hid0_nonempty | split; [exact canon0_hex | exact canon0_addr]]]. Qed.
 Print Assumptions C12_oracles_satisfiable.
 
 (** ... and a concrete admissible history (the D6 witness: RegisterERC20 X; AddCoin dcoin X;
@@ -159,3 +336,31 @@ Proof.
   - vm_compute. reflexivity.
 Qed.
 Print Assumptions C12_nonvacuous.
+
+(** Non-vacuity of the history theorem: in the D6 witness the added denomination converts before the update and, after
+    the update AND a conversion, still converts in both directions through the pair at the new contract (right-hand
+    disjunct); one more operation - the explicit toggle - is a [hit]. *)
+Example C12_history_nonvacuous :
+  let s := run hid0 canon0 (B "atele") head empty_state (firstn 2 ex_ops) in
+  let os := skipn 2 ex_ops in
+  Good hid0 s /\ admissible_run hid0 canon0 (B "atele") head s (os ++ [OToggle (B "dcoin")]) /\
+  (exists p, minting_enabled head s (B "dcoin") (B "dcoin") = Ok p /\ p_text p = canon0 ex_X) /\
+  (exists p', minting_enabled head (run hid0 canon0 (B "atele") head s os) (B "dcoin") (B "dcoin") = Ok p' /\
+              minting_enabled head (run hid0 canon0 (B "atele") head s os) (p_text p') (B "dcoin") = Ok p' /\ p_text p' = canon0 ex_Y) /\
+  hit hid0 canon0 (B "atele") s (os ++ [OToggle (B "dcoin")]) (B "dcoin").
+Proof.
+  cbv zeta. split; [apply monitor_decides; vm_compute; split; reflexivity|]. split; [vm_compute; repeat split|]. split; [|split].
+  - eexists. split; vm_compute; reflexivity.
+  - eexists. split; [vm_compute; reflexivity|]. split; vm_compute; reflexivity.
+  - exists (skipn 2 ex_ops), (OToggle (B "dcoin")), []. eexists. eexists.
+    split; [reflexivity|]. split; [vm_compute; reflexivity|]. split; vm_compute; reflexivity.
+Qed.
+Print Assumptions C12_history_nonvacuous.
+
+(** Non-vacuity of the export theorem: the registry of the D6 witness (one pair, two denominations) is well-formed
+    and its export validates. *)
+Example C12_export_nonvacuous :
+  let s := run hid0 canon0 (B "atele") head empty_state ex_ops in
+  length (get_all_token_pairs s) = 1%nat /\ export_validates head s = true /\ sorted_state_b s = true /\ valid_denoms_b s = true.
+Proof. vm_compute. repeat split; reflexivity. Qed.
+Print Assumptions C12_export_nonvacuous.
